@@ -466,8 +466,8 @@ package resource
 //@   ensures [new-item@C01+C02+C07+C11] err == nil ==> fresh(recv.byId[key])
 //@   ensures [items-immutable@C01+C02+C07+C11] forall p *item :: allocated(p) ==> p.body == old(p.body) && p.changeTime == old(p.changeTime)
 //@   // exactly one event, describing the transition
-//@   ensures [one-event@C01+C04] err == nil ==> calls(Send) == old(calls(Send)) + 1
-//@   ensures [event@C01+C04] err == nil ==> istype(lastarg(Send, 2), *CollectionChange) && ev.Id == key &&
+//@   ensures [one-event@C01+C04+C03] err == nil ==> calls(Send) == old(calls(Send)) + 1
+//@   ensures [event@C01+C04+C03] err == nil ==> istype(lastarg(Send, 2), *CollectionChange) && ev.Id == key &&
 //@   |   ev.NewValue == res && ev.ChangeTime == recv.byId[key].changeTime
 //@   ensures [publish-under-lock@C03] err == nil ==> lastheldW(Send, recv.mu)
 //@   replay [publish-under-lock] PublishOrder(1)
@@ -518,7 +518,7 @@ package resource
 //@   ensures [absent-allowed] !old(has(recv.byId, key)) && args.allowMissing ==> err == nil
 //@   ensures [removed] err == nil && old(has(recv.byId, key)) ==> !has(recv.byId, key) && res == old(recv.byId[key].body) &&
 //@   |   (forall k string :: k != key ==> has(recv.byId, k) == old(has(recv.byId, k)) && recv.byId[k] == old(recv.byId[k]))
-//@   ensures [one-event@C01+C04] err == nil && old(has(recv.byId, key)) ==> calls(Send) == old(calls(Send)) + 1 && istype(lastarg(Send, 2), *CollectionChange) &&
+//@   ensures [one-event@C01+C04+C03] err == nil && old(has(recv.byId, key)) ==> calls(Send) == old(calls(Send)) + 1 && istype(lastarg(Send, 2), *CollectionChange) &&
 //@   |   ev.Id == key && ev.ChangeType == types.ChangeType_REMOVE && ev.OldValue == res && isnil(ev.NewValue)
 //@   ensures [publish-under-lock@C03] err == nil && old(has(recv.byId, key)) ==> lastheldW(Send, recv.mu)
 //@   ensures [check-honoured] old(has(recv.byId, key)) && args.expectedCheck != nil && args.expectedCheck(old(recv.byId[key].body)) != nil ==> err != nil
